@@ -41,7 +41,7 @@ def strategy(tier):
         cli = route == "cli"
         P = draw(st.sampled_from([16384, 16384, 32768]))
         t = draw(trees.tree(P, max_files=6, cli_safe=cli, big=False, modes=["rnd", "nz"]))
-        c = {"tree": t, "P": P, "creator": creator, "route": route,
+        c = {"tree": t, "P": P, "creator": creator, "route": route, "flag": draw(st.sampled_from(["", "", "-v", "-q"])),
              "opts": draw(edits.create_options(cli_safe=cli)),
              "edits": draw(st.lists(edits.edit_request(), min_size=0, max_size=5))}
         if draw(st.sampled_from([True] + [False] * 4)):
@@ -115,6 +115,8 @@ def check_file(path, version, stage):
 
 
 def run_case(case):
+    if case.get("kind") == "optimised":
+        return run_optimised(case)
     tree, P = case["tree"], case["P"]
     version = {"TorrentFile": 1, "Assembler2": 2, "TorrentFileV2": 2, "Assembler3": 3, "TorrentFileHybrid": 3}[case["creator"]]
     target.reset()
@@ -137,7 +139,10 @@ def run_case(case):
         else:
             try:
                 common.create(case["creator"], case["route"], root, out, P, extra_kw=dict(case["opts"]),
-                              extra_cli=edits.options_to_cli(case["opts"]))
+                              extra_cli=edits.options_to_cli(case["opts"]), flags=[case["flag"]] if case.get("flag") else [])
+                if case.get("flag") == "-v":
+                    import logging
+                    logging.getLogger().setLevel(logging.DEBUG)      # what -v leaves behind for library callers, too
             except Exception as e:
                 return Outcome(Violation("C06:create-exception:%s" % type(e).__name__, "create raised %r" % (e,)), True)
             m, v = check_file(out, version, "create")
@@ -165,3 +170,36 @@ def run_case(case):
             if v:
                 return Outcome(v, True, classes)
         return Outcome(None, nontrivial, sorted(set(classes)))
+
+
+GRID_DESC = "create + edit run by an optimised interpreter (python -O / -OO) in a subprocess, v1/v2/hybrid, strict decode of what was written"
+
+
+def grid(tier):
+    return [{"kind": "optimised", "version": v, "opt": o} for v in ("1", "2", "3") for o in (("-O",) if tier == "quick" else ("-O", "-OO"))]
+
+
+def run_optimised(case):
+    """`python -O -m torrentfile create` then `edit`: assert statements are compiled out; the written bytes must be canonical."""
+    import subprocess
+    import sys
+    with sandbox.Scratch("c06o") as scr:
+        pay = os.path.join(scr, "pay")
+        os.makedirs(pay)
+        for i, n in enumerate((20000, 40000, 5)):
+            with open(os.path.join(pay, "f%d" % i), "wb") as fd:
+                fd.write(sandbox.content("rnd", i, n))
+        out = os.path.join(scr, "o.torrent")
+        env = dict(os.environ, PYTHONPATH=target.REPO, PYTHONDONTWRITEBYTECODE="1")
+        version = int(case["version"])
+        for stage, argv in (("create", ["create", "--meta-version", case["version"], "-o", out, "--prog", "0", "--piece-length", "14", "--comment", "c", pay]),
+                            ("edit", ["edit", out, "--comment", "", "--source", "s"]),
+                            ("edit", ["edit", out, "--tracker", "http://t/a"])):
+            p = subprocess.run([sys.executable, case["opt"], "-m", "torrentfile"] + argv, capture_output=True, env=env, cwd=scr, timeout=120)
+            if p.returncode != 0:
+                return Outcome(Violation("C06:optimised:%s-failed" % stage, "python %s -m torrentfile %s exited %d: %s" % (
+                    case["opt"], stage, p.returncode, p.stderr.decode("utf-8", "replace")[-300:])), True, ["optimised-interpreter"])
+            m, v = check_file(out, version, stage + "-under" + case["opt"])
+            if v:
+                return Outcome(v, True, ["optimised-interpreter"])
+    return Outcome(None, True, ["optimised-interpreter"])
